@@ -5,10 +5,10 @@ import json
 import re
 
 
-def parse_cases(tlc_out):
+def parse_cases(tlc_out, tag="CASE"):
     out = []
     seen = set()
-    for m in re.finditer(r'<<"CASE", "(.*)">>', tlc_out):
+    for m in re.finditer(r'<<"%s", "(.*)">>' % tag, tlc_out):
         raw = m.group(1).encode().decode("unicode_escape")
         if raw in seen:
             continue
@@ -78,6 +78,8 @@ KEYS = {
     "ret": ["rid", "val"], "retdrop": ["rid"], "retcb": ["rid", "has", "val"],
     "rcall": ["rid", "aid", "has", "val"], "keepown": ["oid"], "keepret": ["rid"],
     "dropstakker": [], "droppedstakker": [],
+    "tupd": ["tid", "kind", "t", "res"], "tdelb": ["tid"], "tdel": ["tid", "kind", "res"],
+    "tact": ["tid", "kind", "res"], "nexp": ["has", "x"],
 }
 
 
@@ -107,3 +109,24 @@ def compare(pred, actual_lines):
     if len(a) > len(p):
         return {"at": len(p), "spec": None, "code": a[len(p)]}
     return None
+
+
+def build_timer_case(hist, name):
+    """hist: list of {op: {...}, evs: [...]} exported by MCTimers."""
+    ops = []
+    pred = []
+    for h in _as_list(hist):
+        o = h["op"]
+        k = o["op"]
+        if k == "tadd":
+            ops.append({"op": "tadd", "tid": o["tid"], "kind": o["kind"], "t": list(o["t"]),
+                        "item": {"id": o["item"], "ops": []}})
+        elif k == "tupd":
+            ops.append({"op": "tupd", "tid": o["tid"], "t": list(o["t"])})
+        elif k in ("tdel", "tact"):
+            ops.append({"op": k, "tid": o["tid"]})
+        elif k == "run":
+            ops.append({"op": "run", "t": list(o["t"]), "idle": False})
+        ops.append({"op": "nexp"})
+        pred += _as_list(h["evs"])
+    return {"case": name, "props": [], "acyclic": True, "ops": ops, "pred": pred}
